@@ -13,6 +13,11 @@ pub struct ExtPath;
 pub struct Bitmap { _p: u8 }
 
 pub struct RangeIncl { pub start: u32, pub end: u32 }
+/// `a..b` (offered: the pinned text uses the inclusive form)
+pub struct RangeExcl { pub start: u32, pub end: u32 }
+pub trait U32Range { spec fn has(&self, x: int) -> bool; }
+impl U32Range for RangeIncl { open spec fn has(&self, x: int) -> bool { self.start <= x && x <= self.end } }
+impl U32Range for RangeExcl { open spec fn has(&self, x: int) -> bool { self.start <= x && x < self.end } }
 
 impl Bitmap {
     pub uninterp spec fn view(&self) -> Set<int>;
@@ -35,8 +40,8 @@ impl Bitmap {
                 r.is_some() ==> self@.contains(r.unwrap() as int) && (forall|x: int| self@.contains(x) ==> x <= r.unwrap()),
     { unimplemented!() }
     #[verifier::external_body]
-    pub fn remove_range(&mut self, range: RangeIncl)
-        ensures final(self)@ == old(self)@.filter(|x: int| !(range.start <= x && x <= range.end))
+    pub fn remove_range<R: U32Range>(&mut self, range: R)
+        ensures final(self)@ == old(self)@.filter(|x: int| !range.has(x))
     { unimplemented!() }
     #[verifier::external_body]
     pub fn or_inplace(&mut self, other: &Bitmap)
@@ -78,7 +83,8 @@ impl LeafSet {
 //@ end
 
 //@ extract store/src/leaf_set.rs :: impl LeafSet::rewind
-//@   rewrite `let to_remove = ((cutoff_pos + 1) as u32)..=self.bitmap.maximum().unwrap_or(0);` => `let to_remove = RangeIncl { start: ((cutoff_pos + 1) as u32), end: self.bitmap.maximum().unwrap_or(0) };`
+//@   rewrite `let to_remove = ((cutoff_pos + 1) as u32)..=self.bitmap.maximum().unwrap_or(0);` => `let to_remove = RangeIncl { start: ((cutoff_pos + 1) as u32), end: self.bitmap.maximum().unwrap_or(0) };` x?
+//@   rewrite `let to_remove = ((cutoff_pos + 1) as u32)..self.bitmap.maximum().unwrap_or(0);` => `let to_remove = RangeExcl { start: ((cutoff_pos + 1) as u32), end: self.bitmap.maximum().unwrap_or(0) };` x?
 //@   requires:
 //@+    cutoff_pos < 0xffff_ffffu64,
 //@+    forall|x: int| old(self).bitmap@.contains(x) ==> 0 <= x <= 0xffff_ffff,
